@@ -85,6 +85,19 @@ class ModelMap:
         return np.array(out).T
 
 
+def warn_flags(records):
+    """(sub-domains, boundaries): was the caller warned?  Any record at WARNING level or above counts; the wording only
+    decides WHICH kind of name it is about (a message that mentions neither counts for both), so that rewording the
+    library's message cannot turn a warned drop into an alarm."""
+    s = b = 0
+    for r in records:
+        t = str(r).lower()
+        ms = 'subdomain' in t or 'sub-domain' in t
+        mb = 'boundar' in t
+        s, b = max(s, int(ms or not mb)), max(b, int(mb or not ms))
+    return s, b
+
+
 def abstract(mesh, scale, coords=None):
     """[kind, cls, p, t, sub, bnd] with exact integer coordinates p*scale (None if inexact).  `coords` replaces the
     point array (model coordinates, see ModelMap)."""
@@ -174,27 +187,34 @@ def execute(rec, timeout=30):
                              m.refined(np.array([a for a in sarg if a < m.t.shape[1]], dtype=np.int32)) if sub == 'adapt'
                              else m.oriented() if sub == 'oriented' else m.facets), timeout)
             continue
+        import warnings as _w
         cap = LogCapture()
         logger.addHandler(cap)
         old_level = logger.level
         logger.setLevel(logging.WARNING)
+        pyw = []
         try:
-            if name == 'refine':
-                m2, err = guarded(lambda: m.refined(int(arg)), timeout)
-            else:
-                marked = np.array([a for a in arg if a < m.t.shape[1]], dtype=np.int32)
-                if rec.get('marked_as') == 'list':
-                    marked = [int(a) for a in marked]          # the documented alternative: a plain list of indices
-                elif rec.get('marked_as') == 'int64':
-                    marked = marked.astype(np.int64)           # what np.nonzero / np.argsort hand over
-                m2, err = guarded(lambda: m.refined(marked), timeout)
+            with _w.catch_warnings(record=True) as wl:
+                _w.simplefilter('always')
+                if name == 'refine':
+                    m2, err = guarded(lambda: m.refined(int(arg)), timeout)
+                else:
+                    marked = np.array([a for a in arg if a < m.t.shape[1]], dtype=np.int32)
+                    if rec.get('marked_as') == 'list':
+                        marked = [int(a) for a in marked]          # the documented alternative: a plain list of indices
+                    elif rec.get('marked_as') == 'int64':
+                        marked = marked.astype(np.int64)           # what np.nonzero / np.argsort hand over
+                    m2, err = guarded(lambda: m.refined(marked), timeout)
+                # Python-level warnings raised from library code count as well (not NumPy's own RuntimeWarnings)
+                pyw = [str(x.message) for x in wl
+                       if issubclass(x.category, UserWarning) and 'skfem' in str(getattr(x, 'filename', ''))]
         finally:
             logger.removeHandler(cap)
             logger.setLevel(old_level)
         ev = {'a': 'Refine' if name == 'refine' else 'Adapt', 'op': name, 'err': err, 'k': int(arg) if name == 'refine' else 0,
               'marked': [] if name == 'refine' else [int(a) + 1 for a in arg if a < m.t.shape[1]],
-              'warned_s': int(any('subdomains' in r for r in cap.records)),
-              'warned_b': int(any('boundaries' in r for r in cap.records)),
+              'warned_s': warn_flags(cap.records + pyw)[0],
+              'warned_b': warn_flags(cap.records + pyw)[1],
               'pre': EMPTY, 'post': EMPTY}
         if not err and model is not None:
             try:
